@@ -5,7 +5,7 @@
 -/
 import BufrModel.Lemmas.QueryEval
 namespace Bufr.C16
-open Bufr.Query Bufr.PathLang
+open Bufr.Query Bufr.PathLang Bufr.Spec
 
 variable {α : Type}
 
@@ -464,5 +464,196 @@ theorem processOne_bare (ds : List DDesc) (id : List Char) (tree : List Node) (h
   simp only [processOne] at h
   rw [if_neg (by simp [bare])] at h
   exact selectRun_desc ds id tree hits (fun m _ => descOK_all ds id m) h
+
+/-! ### an ordinary element: tree order = flat order -/
+
+/-- the flat entry `i` carries the id -/
+def labAt (ds : List DDesc) (id : List Char) (i : Nat) : Bool := decide ((ds[i]?).map ddChars = some id)
+
+theorem noLabelList_mem (ds : List DDesc) (id : List Char) : ∀ (l : List Node), noLabelList ds id l = true →
+    ∀ m ∈ l, noLabel1 ds id m = true
+  | [], _, m, hm => absurd hm List.not_mem_nil
+  | x :: xs, h, m, hm => by
+    rw [noLabelList, Bool.and_eq_true] at h
+    rcases List.mem_cons.mp hm with rfl | hm'
+    · exact h.1
+    · exact noLabelList_mem ds id xs h.2 m hm'
+
+theorem noLabel1_label (ds : List DDesc) (id : List Char) (n : Node) (h : noLabel1 ds id n = true) :
+    ¬ nodeLabel ds n = some id := by
+  cases n with
+  | value k i attrs => rw [noLabel1, Bool.and_eq_true] at h; simpa using h.1
+  | noval i => rw [noLabel1] at h; simpa using h
+  | seq i ms => rw [noLabel1, Bool.and_eq_true] at h; simpa using h.1
+  | fixedRep i n ms => rw [noLabel1, Bool.and_eq_true] at h; simpa using h.1
+  | delayedRep i n f ms => rw [noLabel1, Bool.and_eq_true, Bool.and_eq_true] at h; simpa using h.1.1
+
+theorem matchList_nil_of (ds : List DDesc) (id : List Char) : ∀ (l : List Node),
+    (∀ m ∈ l, match1 ds id m = []) → matchList ds id l = []
+  | [], _ => by rw [matchList]
+  | x :: xs, h => by
+    rw [matchList, h x List.mem_cons_self, matchList_nil_of ds id xs (fun m hm => h m (List.mem_cons_of_mem _ hm))]
+    rfl
+
+/-- where the id labels nothing there is nothing to find -/
+theorem noLabel_match (ds : List DDesc) (id : List Char) : ∀ n, noLabel1 ds id n = true → match1 ds id n = [] := by
+  apply Node.induct' (fun n => noLabel1 ds id n = true → match1 ds id n = [])
+  · intro k i attrs ih h
+    have hl := noLabel1_label ds id _ h
+    rw [noLabel1, Bool.and_eq_true] at h
+    rw [match1, if_neg hl]
+    exact matchList_nil_of ds id attrs (fun m hm => ih m hm (noLabelList_mem ds id attrs h.2 m hm))
+  · intro i h
+    rw [match1, if_neg (noLabel1_label ds id _ h)]
+  · intro i ms ih h
+    have hl := noLabel1_label ds id _ h
+    rw [noLabel1, Bool.and_eq_true] at h
+    rw [match1, if_neg hl]
+    exact matchList_nil_of ds id ms (fun m hm => ih m hm (noLabelList_mem ds id ms h.2 m hm))
+  · intro i n ms ih h
+    have hl := noLabel1_label ds id _ h
+    rw [noLabel1, Bool.and_eq_true] at h
+    rw [match1, if_neg hl]
+    exact matchList_nil_of ds id ms (fun m hm => ih m hm (noLabelList_mem ds id ms h.2 m hm))
+  · intro i n f ms ihf ih h
+    have hl := noLabel1_label ds id _ h
+    rw [noLabel1, Bool.and_eq_true, Bool.and_eq_true] at h
+    rw [match1, if_neg hl, ihf h.1.2,
+      matchList_nil_of ds id ms (fun m hm => ih m hm (noLabelList_mem ds id ms h.2 m hm))]
+    rfl
+
+/-- a value node whose attributes do not carry the id: found exactly when its own flat entry carries the id -/
+theorem value_match (ds : List DDesc) (vals : List Val) (id : List Char) (k : VKind) (i : Nat) (attrs : List Node)
+    (h : noLabelList ds id attrs = true) :
+    (match1 ds id (.value k i attrs)).map (nodeVal vals) =
+      ((valueIdx i attrs).filter (labAt ds id)).map (fun j => vals[j]?) := by
+  have hnil : matchList ds id attrs = [] :=
+    matchList_nil_of ds id attrs (fun m hm => noLabel_match ds id m (noLabelList_mem ds id attrs h m hm))
+  have hattr : ((attrs.filter Node.kindIsAssoc).filterMap Node.index?).filter (labAt ds id) = [] := by
+    rw [List.filter_eq_nil_iff]
+    intro j hj
+    obtain ⟨a, ha, haj⟩ := List.mem_filterMap.mp hj
+    have ha' := (List.mem_filter.mp ha).1
+    have hnl := noLabel1_label ds id a (noLabelList_mem ds id attrs h a ha')
+    cases a with
+    | value k' j' attrs' =>
+      simp only [Node.index?, Option.some.injEq] at haj
+      subst haj
+      simpa [labAt, nodeLabel] using hnl
+    | noval _ => simp [Node.index?] at haj
+    | seq _ _ => simp [Node.index?] at haj
+    | fixedRep _ _ _ => simp [Node.index?] at haj
+    | delayedRep _ _ _ _ => simp [Node.index?] at haj
+  unfold valueIdx
+  rw [List.filter_append, hattr, List.nil_append, match1, hnil]
+  by_cases hl : nodeLabel ds (.value k i attrs) = some id
+  · rw [if_pos hl]
+    have : labAt ds id i = true := by simpa [labAt, nodeLabel] using hl
+    simp only [List.filter_cons, this, if_true, List.filter_nil, List.map_cons, List.map_nil, nodeVal]
+  · rw [if_neg hl]
+    have : labAt ds id i = false := by simpa [labAt, nodeLabel] using hl
+    simp only [List.filter_cons, this, Bool.false_eq_true, if_false, List.filter_nil, List.map_nil]
+
+/-- what is proved by induction -/
+def OrdOK (ds : List DDesc) (vals : List Val) (id : List Char) (n : Node) : Prop :=
+  ordinary1 ds id n = true →
+    (match1 ds id n).map (nodeVal vals) = ((idx1 n).filter (labAt ds id)).map (fun j => vals[j]?)
+
+theorem ordList (ds : List DDesc) (vals : List Val) (id : List Char) : ∀ (ns : List Node),
+    (∀ m ∈ ns, OrdOK ds vals id m) → ordinaryList ds id ns = true →
+    (matchList ds id ns).map (nodeVal vals) = ((idxList ns).filter (labAt ds id)).map (fun j => vals[j]?)
+  | [], _, _ => by rw [matchList, idxList]; rfl
+  | n :: ns, hP, h => by
+    rw [ordinaryList, Bool.and_eq_true] at h
+    rw [matchList, idxList, List.map_append, List.filter_append, List.map_append, hP n List.mem_cons_self h.1,
+      ordList ds vals id ns (fun m hm => hP m (List.mem_cons_of_mem _ hm)) h.2]
+
+theorem ordOK_all (ds : List DDesc) (vals : List Val) (id : List Char) : ∀ n, OrdOK ds vals id n := by
+  apply Node.induct' (OrdOK ds vals id)
+  · intro k i attrs _ h
+    rw [ordinary1] at h
+    rw [idx1]
+    exact value_match ds vals id k i attrs h
+  · intro i h
+    rw [ordinary1] at h
+    rw [match1, if_neg (by simpa using h), idx1]
+    rfl
+  · intro i ms ih h
+    rw [ordinary1, Bool.and_eq_true] at h
+    rw [match1, if_neg (by simpa using h.1), idx1]
+    exact ordList ds vals id ms ih h.2
+  · intro i n ms ih h
+    rw [ordinary1, Bool.and_eq_true] at h
+    rw [match1, if_neg (by simpa using h.1), idx1]
+    exact ordList ds vals id ms ih h.2
+  · intro i n f ms _ ih h
+    cases f with
+    | value kf fi fattrs =>
+      rw [ordinary1, Bool.and_eq_true, Bool.and_eq_true] at h
+      rw [match1, if_neg (by simpa using h.1.1), idx1, List.map_append, List.filter_append, List.map_append,
+        value_match ds vals id kf fi fattrs h.1.2, ordList ds vals id ms ih h.2]
+    | noval _ => simp [ordinary1] at h
+    | seq _ _ => simp [ordinary1] at h
+    | fixedRep _ _ _ => simp [ordinary1] at h
+    | delayedRep _ _ _ _ => simp [ordinary1] at h
+
+theorem labAt_nil (id : List Char) (i : Nat) : labAt [] id i = false := by simp [labAt]
+
+theorem labAt_succ (d : DDesc) (ds : List DDesc) (id : List Char) (i : Nat) :
+    labAt (d :: ds) id (i + 1) = labAt ds id i := by simp [labAt]
+
+/-- the flat filter, by positions -/
+theorem zip_filter_range (id : List Char) : ∀ (vals : List Val) (ds : List DDesc),
+    (((ds.zip vals).filter (fun p => decide (ddChars p.1 = id))).map (·.2)).map some =
+      ((List.range vals.length).filter (labAt ds id)).map (fun j => vals[j]?)
+  | [], ds => by simp
+  | v :: vs, [] => by
+    rw [List.zip_nil_left]
+    have : (List.range (v :: vs).length).filter (labAt [] id) = [] := by
+      rw [List.filter_eq_nil_iff]
+      intro j _
+      rw [labAt_nil]; simp
+    rw [this]; rfl
+  | v :: vs, d :: ds => by
+    have ih := zip_filter_range id vs ds
+    rw [List.length_cons, List.range_succ_eq_map, List.zip_cons_cons]
+    have hrest : (((List.range vs.length).map Nat.succ).filter (labAt (d :: ds) id)).map (fun j => (v :: vs)[j]?) =
+        ((List.range vs.length).filter (labAt ds id)).map (fun j => vs[j]?) := by
+      rw [List.filter_map, List.map_map]
+      have : (labAt (d :: ds) id ∘ Nat.succ) = labAt ds id := by
+        funext j; exact labAt_succ d ds id j
+      rw [this]
+      apply List.map_congr_left
+      intro j _
+      simp
+    simp only [List.filter_cons]
+    have h0 : labAt (d :: ds) id 0 = decide (ddChars d = id) := by simp [labAt]
+    rw [h0]
+    by_cases hd : ddChars d = id
+    · simp only [hd, decide_true, if_true, List.map_cons, List.getElem?_cons_zero]
+      rw [hrest, ← ih]
+    · simp only [hd, decide_false, Bool.false_eq_true, if_false]
+      rw [hrest, ← ih]
+
+theorem map_some_inj {β : Type} : ∀ (a b : List β), a.map some = b.map some → a = b
+  | [], [], _ => rfl
+  | [], _ :: _, h => by cases h
+  | _ :: _, [], h => by cases h
+  | x :: xs, y :: ys, h => by
+    rw [List.map_cons, List.map_cons] at h
+    injection h with h1 h2
+    rw [Option.some.inj h1, map_some_inj xs ys h2]
+
+/-- the bare id of an ordinary element on a tree whose indices are the flat positions: the values carrying
+    the id in the flat data, in order -/
+theorem bare_flat (o : SubsetOut) (tree : List Node) (id : List Char) (hits : List Hit) (vs : List QV)
+    (hidx : idxList tree = List.range o.vals.length) (hord : ordinaryList o.descs id tree = true)
+    (h : processOne o.descs tree [bare id] = .ok hits) (hv : valuesOf o.vals hits = .ok vs) :
+    flattenQV vs = flatFilter o id := by
+  apply map_some_inj
+  rw [valuesOf_flatten o.vals hits vs hv, processOne_bare o.descs id tree hits h,
+    ordList o.descs o.vals id tree (fun m _ => ordOK_all o.descs o.vals id m) hord, hidx]
+  unfold flatFilter
+  rw [← zip_filter_range id o.vals o.descs]
 
 end Bufr.C16
